@@ -70,6 +70,15 @@ def generate(ctx):
             r["seq"] = "".join(s)
         # overlapping records of one query must still agree: rebuild from a per-query truth is skipped; drop conflicts
         from_file = rng.random() < 0.6
+        # -r given as a file whose sequence is NOT the one embedded in the annotation (a lineage / masked reference with
+        # the same coordinates): the file is the reference for both commands
+        genome_anno = genome
+        if from_file and rng.random() < 0.5:
+            g2 = list(genome)
+            for _ in range(rng.randint(1, 3)):
+                i = rng.randrange(L)
+                g2[i] = rng.choice([c for c in "ACGT" if c != g2[i]])
+            genome = "".join(g2)
         refb = gen.layout(rng, [("REF", genome)], "plain")
         samb = samgen.render_sam("REF", L, recs)
         append = rng.random() < 0.6
